@@ -1,9 +1,8 @@
 package gen
 
 import (
-	"context"
-	"time"
 	"bufio"
+	"context"
 	_ "embed"
 	"encoding/json"
 	"fmt"
@@ -13,6 +12,7 @@ import (
 	"regexp"
 	"sort"
 	"strings"
+	"time"
 
 	"verifharness/evid"
 	"verifharness/gen/rt"
@@ -27,13 +27,13 @@ var schedDriverSource string
 
 // Item is one generated parser.
 type Item struct {
-	Pkg     string // package / module-unique name
-	Variant string
-	D       *Decorated
-	Text    string // the .y text given to yaccgo
-	File    string // generated file
-	GenDiag string // non-empty: yaccgo refused to generate
-	Stdout  string
+	Pkg      string // package / module-unique name
+	Variant  string
+	D        *Decorated
+	Text     string // the .y text given to yaccgo
+	File     string // generated file
+	GenDiag  string // non-empty: yaccgo refused to generate
+	Stdout   string
 	BuildErr string // non-empty: the Go compiler rejected the generated file
 }
 
@@ -198,28 +198,28 @@ func tail(s string, n int) string {
 
 // Job asks the driver to run inputs on one parser.
 type Job struct {
-	Pkg     string   `json:"pkg"`
-	Inputs  []string `json:"inputs"`
-	Trace   bool     `json:"trace"`
-	NStates int      `json:"nstates"`
-	NSyms   int      `json:"nsyms"`
-	TransLo int      `json:"trans_lo"`
-	TransHi int      `json:"trans_hi"`
-	Fuel    int      `json:"fuel"`
+	Pkg         string     `json:"pkg"`
+	Inputs      []string   `json:"inputs"`
+	Trace       bool       `json:"trace"`
+	NStates     int        `json:"nstates"`
+	NSyms       int        `json:"nsyms"`
+	TransLo     int        `json:"trans_lo"`
+	TransHi     int        `json:"trans_hi"`
+	Fuel        int        `json:"fuel"`
 	Histories   [][]string `json:"histories,omitempty"`
 	HistoryMode string     `json:"history_mode,omitempty"`
 }
 
 type Out struct {
-	Pkg   string     `json:"pkg"`
-	Input string     `json:"input"`
-	Kind  string     `json:"kind"`
-	Res   *rt.Result `json:"res,omitempty"`
-	Dump  [][]int    `json:"dump,omitempty"`
-	Trans []int      `json:"trans,omitempty"`
-	Err   string     `json:"err,omitempty"`
-	Job   int        `json:"job"`
-	Pos   int        `json:"pos"`
+	Pkg     string      `json:"pkg"`
+	Input   string      `json:"input"`
+	Kind    string      `json:"kind"`
+	Res     *rt.Result  `json:"res,omitempty"`
+	Dump    [][]int     `json:"dump,omitempty"`
+	Trans   []int       `json:"trans,omitempty"`
+	Err     string      `json:"err,omitempty"`
+	Job     int         `json:"job"`
+	Pos     int         `json:"pos"`
 	History []string    `json:"history,omitempty"`
 	Results []rt.Result `json:"results,omitempty"`
 }
